@@ -862,6 +862,13 @@ def attr_mismatches(top, attrs):
         if type(node).__name__ != "LazyExecNode":
             continue
         q = getattr(node.exec_function, "__qualname__", "?")
+        if q.endswith("<lambda>") and ">!>" in id_:
+            # the identity stub that hands a supplied argument to a parameter of a called DAG: written in place there is no
+            # such node at all — it must not weigh on the schedule (not sequential, priority 0, run by the scheduler itself)
+            got = (node.priority, bool(node.is_sequential), node.resource)
+            if got != (0, False, Resource.main_thread):
+                out.append((id_, "<argument stub>", repr(got), repr((0, False, Resource.main_thread))))
+            continue
         f = "pair" if q == "pair_unpacked2" else q
         a = attrs.get(f)
         if a is None or f in TWZ_BUILTINS or f in OPS:
